@@ -57,6 +57,9 @@ CHECKS = {
  "C19": ("6/C19", "TLA+ CborDecoder/CborGrammar parametric in L; TLC model check for L=1,2,3; libcbor built through CMake with CBOR_MAX_STACK_SIZE in {1,2,3,(8,64,)2048}; TLC trace validation per L; small fixed native stack run",
          "TLC shows for L=1,2,3 and all bounded head strings that a frame push is refused exactly at depth L and reported as MEMERROR just past that head, and that empty definite containers never open a level. For each configured L the real library is built with that option and its executions on nesting families (every container kind, depths L-1, L, L+1, 4L) are validated by TLC against the spec instantiated with the same L; the whole pipeline is also run on a thread with a 64 KiB + 2 KiB*L stack.",
          "Trusted: TLC, recorder; native stack consumption is observed (SIGSEGV on an alternate stack), the spec bounds recursion depth only. Deep executions (L >= 64) are judged end to end by the grammar rather than stepped through the machine."),
+ "C20": ("6/C20", "TLA+ SizeArith (C arithmetic modulo 2^W vs unbounded integers): TLC exhaustive at W=4,6,8; Apalache symbolic at W=64 (all 2^128 operand pairs) incl. a generated bit-linear module for the products; TLC trace validation of the real memory_utils.c compiled at 8/16-bit size_t, of the 64-bit library on boundary grids and of end-to-end requests (Trace_SizeArith)",
+         "Apalache discharges, for all operands at W=64, that an accepted product or sum never wraps, that the signalling add is exact-or-0 with 0 absorbing, and that growth requests are exact; TLC checks the same text exhaustively at small W and that the bit-linear product used for Apalache equals a*b. The real source of memory_utils.c is compiled with an 8-bit size_t (all 65,536 pairs) and a 16-bit one (grid) and every result is judged by TLC with exact byte arithmetic, as are the compiled 64-bit functions on a {2^k-1,2^k,2^k+1} grid and constructor / decoder / growth / serialized-size calls with counts and lengths around 2^20..2^64 under a size-recording allocator.",
+         "Trusted: TLC, Apalache+z3, the generator of the bit-linear module. The symbolic result is about the model; the model-to-code link is conformance, not proof. Evidence reports obligations/discharged as measured."),
 }
 NOT_YET = "check not built yet in this round (machinery in progress); no claim made"
 
